@@ -215,7 +215,8 @@ def run(ctx):
                       "model/implementation disagree on %d cases" % len(mism), no_input=True)
     ctx.proof_violation_if_broken(pr, "c17 search: %d evaluations, no failing input" % ctx.notes.get("search_evaluations", 0))
     ctx.cov["rule"] = ("corr: see input_distribution (exhaustive payload length %d, %d random cases); distinct = distinct case lines; "
-                       "search: extract(write msgs) = msgs through sei.ExtractSEIData, avc.ParseSEINalu and hevc.ParseSEINalu, written "
+                       "search: extract(write msgs) = msgs through sei.ExtractSEIData (from a bytes.Reader and from ReadSeekers that are no ByteReaders "
+                       "and return the last bytes together with EOF / one byte per Read / short reads: same outcome), avc.ParseSEINalu and hevc.ParseSEINalu, written "
                        "bytes = independent naive emulation prevention of the plain serialisation, no forbidden triple; typed: decode(Payload(m)) "
                        "deep-equals m on canonical values, Size() = len(Payload()) on canonical AND on generated non-canonical values, typed messages through WriteSEIMessages + ParseSEINalu, "
                        "pass-through payload unchanged; histories (canonical edits only): for the final value m of a generated history "
